@@ -2,24 +2,14 @@ From Coq Require Import List Bool.
 Require Import ZV.Model.Cmdline.
 Import ListNotations.
 
-Lemma scan_flags : forall pre s tail, forallb is_flag pre = true ->
-  scan s (pre ++ tail) = scan {| sandboxed_flag := last_sandbox (sandboxed_flag s) pre |} tail.
+Lemma scan_flags_sb : forall pre s tail, forallb is_flag pre = true ->
+  exists s', scan s (pre ++ tail) = scan s' tail /\ sandboxed_flag s' = last_sandbox (sandboxed_flag s) pre.
 Proof.
   induction pre as [|a pre IH]; intros s tail H; simpl in *.
-  - destruct s. reflexivity.
+  - exists s. split; reflexivity.
   - apply andb_prop in H. destruct H as [Ha H].
-    destruct a as [v| |[]| | |]; simpl in Ha; try discriminate; simpl.
-    + rewrite (IH _ tail H). reflexivity.
-    + rewrite (IH s tail H). reflexivity.
-    + rewrite (IH s tail H). reflexivity.
-Qed.
-
-(* whatever follows the script name (or "--") cannot change the outcome *)
-Theorem args_after_script_irrelevant : forall pre post post', forallb is_flag pre = true ->
-  run_cmdline (pre ++ APlain :: post) = run_cmdline (pre ++ APlain :: post') /\
-  run_cmdline (pre ++ ADashDash :: post) = run_cmdline (pre ++ ADashDash :: post').
-Proof.
-  intros pre post post' H. unfold run_cmdline. split; rewrite !(scan_flags pre _ _ H); reflexivity.
+    destruct a as [v|b|b| |[]|[]| | |]; simpl in Ha; try discriminate; simpl;
+      match goal with |- exists s', scan ?s0 _ = _ /\ _ => destruct (IH s0 tail H) as [s' [E1 E2]]; exists s'; split; [exact E1 | exact E2] end.
 Qed.
 
 (* a command line whose flag part ends up with the sandbox flag on runs sandboxed, whatever follows *)
@@ -28,22 +18,63 @@ Theorem sandbox_flag_decides : forall pre post, forallb is_flag pre = true ->
   run_cmdline (pre ++ ADashDash :: post) = (if last_sandbox false pre then OSandboxed else OOpen) /\
   run_cmdline pre = (if last_sandbox false pre then OSandboxed else OOpen).
 Proof.
-  intros pre post H. unfold run_cmdline. repeat split.
-  - rewrite (scan_flags pre _ _ H). reflexivity.
-  - rewrite (scan_flags pre _ _ H). reflexivity.
-  - rewrite <- (app_nil_r pre) at 1. rewrite (scan_flags pre _ _ H). reflexivity.
+  intros pre post H. unfold run_cmdline, kind_of. repeat split.
+  - destruct (scan_flags_sb pre st0 (APlain :: post) H) as [s' [E1 E2]]. rewrite E1. simpl. rewrite E2. reflexivity.
+  - destruct (scan_flags_sb pre st0 (ADashDash :: post) H) as [s' [E1 E2]]. rewrite E1. simpl. rewrite E2. reflexivity.
+  - destruct (scan_flags_sb pre st0 [] H) as [s' [E1 E2]]. rewrite app_nil_r in E1. rewrite E1. simpl. rewrite E2. reflexivity.
+Qed.
+
+(* whatever follows the script name (or "--") cannot change the outcome *)
+Theorem args_after_script_irrelevant : forall pre post post', forallb is_flag pre = true ->
+  run_cmdline (pre ++ APlain :: post) = run_cmdline (pre ++ APlain :: post') /\
+  run_cmdline (pre ++ ADashDash :: post) = run_cmdline (pre ++ ADashDash :: post').
+Proof.
+  intros pre post post' H.
+  destruct (sandbox_flag_decides pre post H) as [A [B _]].
+  destruct (sandbox_flag_decides pre post' H) as [A' [B' _]].
+  split; congruence.
 Qed.
 
 (* a flag that takes its value from the next argument swallows it, even if it looks like -sandbox=false *)
 Theorem value_is_not_a_flag : forall pre a post, forallb is_flag pre = true ->
   run_cmdline (pre ++ AStr false :: a :: post) = run_cmdline (pre ++ post).
 Proof.
-  intros pre a post H. unfold run_cmdline. rewrite !(scan_flags pre _ _ H). reflexivity.
+  intros pre a post H. unfold run_cmdline.
+  assert (G : forall s tail1 tail2, (forall s', scan s' tail1 = scan s' tail2) -> scan s (pre ++ tail1) = scan s (pre ++ tail2)).
+  { clear a post. induction pre as [|x pre IH]; intros s t1 t2 E; simpl; [apply E|].
+    simpl in H. apply andb_prop in H. destruct H as [Hx H].
+    destruct x as [v|b|b| |[]|[]| | |]; simpl in Hx; try discriminate; apply (IH H); exact E. }
+  rewrite (G st0 (AStr false :: a :: post) post); [reflexivity|]. intros s'. reflexivity.
 Qed.
 
 (* an undefined flag in the flag part rejects the command line: nothing runs *)
 Theorem bad_flag_rejects : forall pre post, forallb is_flag pre = true ->
   run_cmdline (pre ++ ABad :: post) = ORejected.
 Proof.
-  intros pre post H. unfold run_cmdline. rewrite (scan_flags pre _ _ H). reflexivity.
+  intros pre post H. unfold run_cmdline.
+  destruct (scan_flags_sb pre st0 (ABad :: post) H) as [s' [E1 _]]. rewrite E1. reflexivity.
 Qed.
+
+(* EVERY phase of a session -- the command, the script, the repl a failed script drops into, the repl after
+   -i, the plain repl -- runs on an interpreter of the kind the command line asked for *)
+Theorem session_one_interpreter : forall l fails phs ph k,
+  session l fails = Some phs -> In (ph, k) phs -> k = run_cmdline l.
+Proof.
+  intros l fails phs ph k H Hin. unfold session in H. unfold run_cmdline.
+  destruct (scan st0 l) as [|s rest]; [discriminate|]. inversion H; subst phs. clear H.
+  apply in_map_iff in Hin. destruct Hin as [x [E _]]. inversion E. reflexivity.
+Qed.
+
+Theorem session_sandboxed : forall pre post fails phs ph k, forallb is_flag pre = true ->
+  last_sandbox false pre = true ->
+  session (pre ++ APlain :: post) fails = Some phs -> In (ph, k) phs -> k = OSandboxed.
+Proof.
+  intros pre post fails phs ph k H Hl Hs Hin.
+  rewrite (session_one_interpreter _ _ _ _ _ Hs Hin).
+  destruct (sandbox_flag_decides pre post H) as [A _]. rewrite A, Hl. reflexivity.
+Qed.
+
+(* a script that fails without -exitonfail is followed by a repl; the session says so (non-vacuity of the phase) *)
+Example failed_script_drops_into_repl :
+  session [ASandbox None; ABool; APlain] true = Some [(PhScript, OSandboxed); (PhReplAfterFailedScript, OSandboxed)].
+Proof. reflexivity. Qed.
